@@ -135,7 +135,7 @@ fn install_panic_hook() {
                 .try_with(|p| p.borrow_mut().push((tokio::task::try_id(), format!("{} @ {}", msg, loc))))
                 .is_ok();
             let active = SIM_ACTIVE.try_with(|a| a.get()).unwrap_or(false);
-            if !(active && recorded && QUIET_PANICS.load(Ordering::Relaxed)) {
+            if !(active && recorded && QUIET_PANICS.load(Ordering::Relaxed)) || std::env::var("VERIF_LOUD").is_ok() {
                 prev(info);
             }
         }));
